@@ -379,6 +379,17 @@ func runCase(t *rapid.T, level string, forcedKinds []string, maxEdits int) {
 		}
 	}
 
+	// harness self-check: the reference accepts what an honest owner presents
+	if len(c.Edits) == 0 && !strict.ok {
+		wellFormed := true
+		for _, a := range c.Addrs {
+			wellFormed = wellFormed && a.bound && (a.spendable || a.Kind == "multisig-1of1")
+		}
+		if wellFormed {
+			t.Fatalf("harness: reference rejects an honest case (%s): %+v", strict.clause, rendered())
+		}
+	}
+
 	// completeness (non-vacuity): an honest owner can spend
 	if len(c.Edits) == 0 && !accepted {
 		spendable := true
